@@ -34,6 +34,12 @@ fn token_text(t: &str) -> &str {
         "<pp-define>" => "\n#define Y\n",
         "<pp-else>" => "\n#else\n",
         "<pp-bogus>" => "\n#bogus\n",
+        "<pp-define-accent>" => "\n#define \u{c9}\n",
+        "<pp-if-accent>" => "\n#if D\u{c9}BUG\n",
+        "<pp-undef-greek>" => "\n#undef Fo\u{3c9}\n",
+        "<pp-if-digit>" => "\n#if 1A\n",
+        "<pp-if-amp>" => "\n#if A & \u{e9}\n",
+        "<pp-elif-accent>" => "\n#elif \u{df}\n",
         "<nul>" => "\0",
         "<bom>" => "\u{feff}",
         "<cr>" => "\r",
@@ -277,6 +283,13 @@ fn bin_run(dir: &std::path::Path, texts: &[String], extra: &[String], json_forma
         argv.extend(["--diagnostic-format".to_owned(), "json".to_owned()]);
     }
     argv.extend(extra.iter().cloned());
+    // a reference directory with files that declare no module: nothing but a comment, everything inside a block that is not
+    // selected, only a file attribute - legal, empty files (they change no verdict)
+    std::fs::create_dir_all(dir.join("refs")).unwrap();
+    std::fs::write(dir.join("refs/only_a_comment.slice"), "// nothing here\n").unwrap();
+    std::fs::write(dir.join("refs/not_selected.slice"), "#if NOPE\nmodule Hidden\nstruct H {}\n#endif\n").unwrap();
+    std::fs::write(dir.join("refs/only_an_attribute.slice"), "[[cs::x]]\n").unwrap();
+    argv.extend(["-R".to_owned(), "refs".to_owned()]);
     let res = crate::fam_driver::run_limited(std::process::Command::new(crate::fam_driver::slicec_bin()).args(&argv).current_dir(dir), std::time::Duration::from_secs(60));
     let stderr = String::from_utf8_lossy(&res.stderr).to_string();
     // JSON: one object per diagnostic; human format: one header line per diagnostic
